@@ -327,6 +327,34 @@ func child(args []string) {
 					keep = append(keep, e)
 				}
 			}
+			// churn right before the defragmentation: exhaust the bump page of the class so that
+			// allocations are served from the free list, mix in frees, and end on either kind of
+			// operation (defrag must cope with whatever list state the last Malloc/Free left behind)
+			churn := r.Intn(30000)
+			if r.Intn(3) == 0 {
+				churn = r.Intn(40)
+			}
+			for i := 0; i < churn; i++ {
+				sz := ss[0] + r.Intn(ss[1]-ss[0]+1)
+				if e := malloc(r, sz, loc); e != nil {
+					keep = append(keep, e)
+				}
+				if r.Intn(3) == 0 && len(keep) > 0 {
+					j := r.Intn(len(keep))
+					e := keep[j]
+					keep[j] = keep[len(keep)-1]
+					keep = keep[:len(keep)-1]
+					if verify(e, "churn-free") {
+						A.Free(e.p)
+						loc.Frees++
+					}
+				}
+			}
+			if r.Bool() {
+				if e := malloc(r, ss[0], loc); e != nil { // last operation before defrag: a Malloc
+					keep = append(keep, e)
+				}
+			}
 			regs[0] = append(regs[0], keep...)
 			merge(loc)
 			barrier(fmt.Sprintf("pre-defrag r%d", round))
